@@ -1,5 +1,6 @@
 """C15 - PDK compilation swaps device targets and nothing else."""
 import io
+import os
 import itertools
 import random
 
@@ -19,6 +20,9 @@ INFO = {
                      "vlsirtools netlisters", "pyvc", "z3"],
 }
 BAD_ERRORS = (StopIteration, IndexError, KeyError, UnboundLocalError, AttributeError, NameError)
+
+
+ROOT = os.path.dirname(os.path.dirname(os.path.abspath(__file__)))
 
 
 def pdks():
@@ -135,6 +139,9 @@ def cases(tier, seed):
         yield ("lists-arrays-literals", name, None)
         yield ("dispatch", name, None)
         yield ("dispatch-after-failure", name, None)
+        yield ("dispatch-unknown-name", name, None)
+        if d["models"]:
+            yield ("by-parameter-after-by-model", name, None)
         yield ("pairs-and-frame", name, None)
 
 
@@ -489,6 +496,74 @@ def _check_case_rest(case, kind, pname, arg, P, w):
                     if not (got == want and got.module is want.module):
                         return (f"{pname}.pairs.device", f"{r1} then {r2} in one compile: {iname} became {got.module.name} "
                                                          f"{got.params}, alone it becomes {want.module.name} {want.params}", w)
+        return None
+    if kind == "dispatch-unknown-name":
+        # a PDK name nobody registered is an error - whatever default is in force - never a compile to some other PDK
+        import hdl21.pdk as hp
+        mine = next((m for m in hp.pdk._mgr.modules if m.__name__.startswith(P["pkg"].__name__)), None)
+        call = h.Mos(tp=MosType.NMOS, family=MosFamily.CORE, vth=MosVth.STD)
+        old = hp.pdk._mgr.default
+        try:
+            for default in (None, mine):
+                hp.pdk._mgr.default = default
+                top = design(call, depth=1, shared=False)
+                for bogus in ("no_such_pdk", mine.__name__ + "_x", ""):
+                    try:
+                        hp.compile(top, pdk=bogus)
+                    except Exception:
+                        continue
+                    dev = [t for pth, t in leaf_targets(top).items() if pth[-1] == "dev"][0]
+                    return ("pdk.compile.unknown-name", f"compile(pdk={bogus!r}) (default: {getattr(default, '__name__', None)}) did not raise; "
+                                                        f"the device is now {getattr(getattr(dev, 'module', None), 'name', dev)}", w)
+        finally:
+            hp.pdk._mgr.default = old
+        return None
+    if kind == "by-parameter-after-by-model":
+        # selection by (type, family, threshold) gives the same device whether or not other devices of that triple were
+        # compiled by model name BEFORE the first request by parameters - in a fresh process each (selection tables may be
+        # filled lazily, once per process)
+        import json
+        import subprocess
+        import sys
+        from pyvc import loader
+        script = (
+            "import sys, json\n"
+            "import hdl21 as h\n"
+            "from hdl21.primitives import MosType, MosFamily, MosVth\n"
+            "import props.c15 as c\n"
+            "P = c.pdks()[sys.argv[1]]\n"
+            "if sys.argv[2].startswith('models-first'):\n"
+            "    names = list(P['models'])\n"
+            "    names = names[::-1] if sys.argv[2].endswith('reversed') else names\n"
+            "    for mname in names:\n"
+            "        t = c.design(h.Mos(model=mname), depth=1, shared=False)\n"
+            "        try: P['compile'](t)\n"
+            "        except Exception: pass\n"
+            "out = {}\n"
+            "for r in c.mos_requests('quick'):\n"
+            "    if len(P['mos'](h.Mos(**r).params)) >= 1:\n"
+            "        t = c.design(h.Mos(**r), depth=1, shared=False)\n"
+            "        try:\n"
+            "            P['compile'](t)\n"
+            "            d = [x for pth, x in c.leaf_targets(t).items() if pth[-1] == 'dev'][0]\n"
+            "            out[str(sorted((k, v.name) for k, v in r.items()))] = d.module.name + ' ' + str(d.params)\n"
+            "        except Exception as e:\n"
+            "            out[str(sorted((k, v.name) for k, v in r.items()))] = 'raises ' + type(e).__name__\n"
+            "print('SEL' + json.dumps(out, sort_keys=True))\n")
+        res = {}
+        for mode in ("parameters-only", "models-first", "models-first-reversed"):
+            env = dict(os.environ, PYTHONPATH=os.pathsep.join([ROOT, loader.REPO] + [os.path.join(loader.REPO, "pdks", d_) for d_ in
+                                                                                    ("Sky130", "Gf180", "Asap7")]))
+            r = subprocess.run([sys.executable, "-c", script, pname, mode], capture_output=True, text=True, env=env, timeout=600, cwd=ROOT)
+            line = [l for l in r.stdout.splitlines() if l.startswith("SEL")]
+            if not line:
+                return (f"{pname}.selection.harness", f"worker failed: {r.stderr[-300:]}", w)
+            res[mode] = json.loads(line[0][3:])
+        for key, dev in res["parameters-only"].items():
+            for mode in ("models-first", "models-first-reversed"):
+                if res[mode].get(key) != dev:
+                    return (f"{pname}.selection.history", f"{key}: {dev} in a process that only asks by parameters, "
+                                                          f"{res[mode].get(key)} after every device was first compiled by model name ({mode})", w)
         return None
     if kind == "dispatch-after-failure":
         # a compile that raises (no such device) leaves the PDK registry as it was: the default still decides
